@@ -1277,7 +1277,8 @@ fn adts_to_raw(frame: &[u8]) -> Result<&[u8], AdtsValidationError> {
         | ((frame[4] as usize) << 3)
         | (((frame[5] & 0xE0) as usize) >> 5);
 
-    if aac_frame_length < header_len {
+    // A frame whose declared length leaves no payload would queue an empty sample
+    if aac_frame_length <= header_len {
         return Err(AdtsValidationError {
             kind: AdtsErrorKind::InvalidFrameLength,
             severity: ErrorSeverity::Error,
